@@ -77,7 +77,19 @@ func (p DictPattern) Bind(ctx context.Context, local Scope, value Value) (contex
 
 	result := EmptyScope
 	m := dict.m
+	// ... is bound last, to the entries that no other part of the pattern matched.
+	entries := make([]DictPatternEntry, 0, len(p.entries))
 	for _, entry := range p.entries {
+		if _, is := entry.pattern.pattern.(ExtraElementPattern); !is {
+			entries = append(entries, entry)
+		}
+	}
+	for _, entry := range p.entries {
+		if _, is := entry.pattern.pattern.(ExtraElementPattern); is {
+			entries = append(entries, entry)
+		}
+	}
+	for _, entry := range entries {
 		var dictValue Value
 		if _, is := entry.pattern.pattern.(ExtraElementPattern); is {
 			if m.IsEmpty() {
